@@ -274,6 +274,9 @@ def r89(ctx, ut, rule='R8.9'):
     nullable float names are treated before"""
     f = ut.func('val_from_meta')
     s = norm(ast.Module(body=f.body, type_ignores=[]))
+    tzret = [r for r in ast.walk(f) if isinstance(r, ast.Return) and 'pd.Timestamp(x)' in norm(r)]
+    ctx.ob(rule, 'util.val_from_meta:zone-aware-value-keeps-its-offset', len(tzret) == 1 and norm(tzret[0].value) == 'pd.Timestamp(x)',
+           '`%s`: dropping the zone compares wall-clock times of different zones as if they were instants' % (norm(tzret[0]) if tzret else '?'), ut.loc(f))
     ctx.ob(rule, 'util.val_from_meta:time-zone-aware-partition-type-handled', "startswith('datetime64[')" in s and 'pd.Timestamp(x)' in s,
            "np.dtype('datetime64[us, UTC]') raises TypeError", ut.loc(f))
     ctx.ob(rule, 'util.val_from_meta:nullable-float-partition-type-handled', "'Float64'" in s and '.lower()' in s,
